@@ -166,6 +166,13 @@ def run(ctx):
             for comp in (True, False):
                 v, f = ev.call_function('keys.PublicKey.parse', [T.clsref(PUBKEY), T.sec(P, T.const(comp))])
                 same_pub(ob, ev, v, P, 'parse(sec(P, compressed=%s)) == P [%s]' % (comp, be), fsec.where)
+            check_history_free(ob, ev, _pub_obj(P, be), [('sec(compressed=%s)' % c_, 'keys.PublicKey.sec', {'compressed': T.const(c_)})
+                                                         for c_ in (True, False)] + [('sec()', 'keys.PublicKey.sec', {})],
+                               'PublicKey [%s]' % be, fsec.where)
+            check_history_free(ob, ev, _key_obj(k, be), [('wif(compressed=%s, testnet=%s)' % (c_, t_), 'keys.PrivateKey.wif',
+                                                          {'compressed': T.const(c_), 'testnet': T.const(t_)})
+                                                         for c_ in (True, False) for t_ in (True, False)] +
+                               [('bytes()', 'keys.PrivateKey.__bytes__', {})], 'PrivateKey [%s]' % be, fsec.where)
             v, _ = ev.call_function('keys.PublicKey.__eq__', [_pub_obj(P, be), _pub_obj(Q, be)])
             same_term(ob, v, T.eq(T.sec(P, T.TRUE), T.sec(Q, T.TRUE)), 'public keys are equal iff their encodings are [%s]' % be, fsec.where)
             k1, k2 = S('k1', type='bytes', len=32), S('k2', type='bytes', len=32)
